@@ -136,6 +136,18 @@ impl AsyncWrite for Sink {
         Poll::Ready(Ok(0))
     }
     fn poll_flush(self: Pin<&mut Self>, _cx: &mut Context<'_>) -> Poll<io::Result<()>> {
+        // a flush may be Pending too (a suspension point like any other: the caller may drop the future there)
+        let mut s = self.0.borrow_mut();
+        if s.consecutive_pending < s.lim.p {
+            let c = s.ch.borrow_mut().choose("poll_flush: ready / pending", &[0, 1]);
+            if c == 1 {
+                s.consecutive_pending += 1;
+                s.last_poll_pending = true;
+                return Poll::Pending;
+            }
+        }
+        s.consecutive_pending = 0;
+        s.last_poll_pending = false;
         Poll::Ready(Ok(()))
     }
     fn poll_close(self: Pin<&mut Self>, _cx: &mut Context<'_>) -> Poll<io::Result<()>> {
